@@ -37,6 +37,7 @@ def run(ctx):
         'D5 re-binding of view-wrapped storage (as done by copy_like through _expand_phases / row replacement) drops the cached mass/volume views',
         'D6 after copy_like / mix_from change the phase tuple the shared lookup cache is re-selected for the new (phases, chemicals) key',
         'D7 every attribute stored on an instance created with K.__new__(K) in the stream / indexer / sparse modules is storable there',
+        'D8 copy_like between property packages maps positions through index_overlap: its memo is keyed by the ordered CAS tuple and kept on the package whose table the positions come from',
     ]
     ctx.not_decided = ['equality of observable state after unpickling', 'Chemical/Thermo pickles beyond the argument tuple']
     d1 = ctx.rule('D1', 'sharing contract table', floor=14)
@@ -59,6 +60,9 @@ def run(ctx):
     d6 = ctx.rule('D6', 'the per-(phases, chemicals) index cache of the copy target is refreshed after its inputs change', floor=3)
     from ..generic import index_cache_follows_inputs
     index_cache_follows_inputs(prog, d6)
+    d8 = ctx.rule('D8', 'cross-package copies: the position memo of index_overlap is keyed and owned consistently', floor=2)
+    from .C01 import overlap_key_rule
+    overlap_key_rule(ctx, d8)
     d7 = ctx.rule('D7', 'hand-built copies only store attributes that can be stored', floor=40)
     from ..generic import storable_attributes
     storable_attributes(prog, d7, rels={ST, MS, IX, 'thermosteam/_thermal_condition.py', 'thermosteam/base/sparse.py'})
